@@ -1,6 +1,12 @@
 /-
 Helper lemmas for C06: `PairingCheck` computes the product of the pairings (skipping identity
 pairs is harmless because e(O, ·) = e(·, O) = 1), for ANY operations that implement a bilinear map.
+
+The operations act on representation types `P1 P2 PT` (Jacobian/affine points, Miller-loop values)
+that need not be groups themselves and may contain junk values; `IsPairing` therefore speaks about
+*valid* representations (`V1 V2 VT`) and their denotations `ι1 : P1 → A1`, `ι2 : P2 → A2` in additive
+commutative groups, `fe : PT → T` in a commutative group.  The fully abstract reading is
+`V = fun _ => True`, `ι = id`.
 -/
 import Mathlib.Algebra.Group.Basic
 import Mathlib.Algebra.Group.TypeTags.Basic
@@ -10,89 +16,104 @@ import DosModel.Model.Bls
 namespace Dos.Bls
 open Dos Dos.Codec
 
-variable {P1 P2 PT T : Type}
+variable {P1 P2 PT A1 A2 T : Type}
 
-/-- The operations `PairingCheck` calls implement a bilinear map `e : P1 × P2 → T`:
-`fe` is "final exponentiation" seen as a map from Miller-loop values to the target group. `miller`
-is only constrained on non-identity arguments (the code never calls it on an identity). -/
-structure IsPairing [AddCommGroup P1] [AddCommGroup P2] [CommGroup T]
-    (o : PairingOps P1 P2 PT) (e : P1 → P2 → T) (fe : PT → T) : Prop where
-  inf1 : ∀ a, o.isInf1 a = true ↔ a = 0
-  inf2 : ∀ b, o.isInf2 b = true ↔ b = 0
+/-- The operations `PairingCheck` calls implement, on valid representations, a bilinear map
+`e : A1 × A2 → T`.  `fe` = "final exponentiation" read as a map from Miller-loop values to the
+target group; `miller` is only constrained on valid non-identity arguments (the code never calls it
+on an identity). -/
+structure IsPairing [AddCommGroup A1] [AddCommGroup A2] [CommGroup T]
+    (o : PairingOps P1 P2 PT) (V1 : P1 → Prop) (V2 : P2 → Prop) (VT : PT → Prop)
+    (ι1 : P1 → A1) (ι2 : P2 → A2) (e : A1 → A2 → T) (fe : PT → T) : Prop where
+  inf1 : ∀ a, V1 a → (o.isInf1 a = true ↔ ι1 a = 0)
+  inf2 : ∀ b, V2 b → (o.isInf2 b = true ↔ ι2 b = 0)
+  one_valid : VT o.one
   fe_one : fe o.one = 1
-  fe_mul : ∀ x y, fe (o.mul x y) = fe x * fe y
-  fe_miller : ∀ a b, a ≠ 0 → b ≠ 0 → fe (o.miller b a) = e a b
-  final : ∀ x, o.finalIsOne x = true ↔ fe x = 1
+  mul_valid : ∀ x y, VT x → VT y → VT (o.mul x y)
+  fe_mul : ∀ x y, VT x → VT y → fe (o.mul x y) = fe x * fe y
+  miller_valid : ∀ a b, V1 a → V2 b → VT (o.miller b a)
+  fe_miller : ∀ a b, V1 a → V2 b → ι1 a ≠ 0 → ι2 b ≠ 0 → fe (o.miller b a) = e (ι1 a) (ι2 b)
+  final : ∀ x, VT x → (o.finalIsOne x = true ↔ fe x = 1)
   add_left : ∀ a a' b, e (a + a') b = e a b * e a' b
   add_right : ∀ a b b', e a (b + b') = e a b * e a b'
 
 section
-variable [AddCommGroup P1] [AddCommGroup P2] [CommGroup T]
-variable {o : PairingOps P1 P2 PT} {e : P1 → P2 → T} {fe : PT → T}
+variable [AddCommGroup A1] [AddCommGroup A2] [CommGroup T]
+variable {o : PairingOps P1 P2 PT} {V1 : P1 → Prop} {V2 : P2 → Prop} {VT : PT → Prop}
+variable {ι1 : P1 → A1} {ι2 : P2 → A2} {e : A1 → A2 → T} {fe : PT → T}
 
-theorem IsPairing.zero_left (h : IsPairing o e fe) (b : P2) : e 0 b = 1 := by
+theorem IsPairing.zero_left (h : IsPairing o V1 V2 VT ι1 ι2 e fe) (b : A2) : e 0 b = 1 := by
   have := h.add_left 0 0 b
   rw [add_zero] at this
   exact (mul_eq_left.mp this.symm)
 
-theorem IsPairing.zero_right (h : IsPairing o e fe) (a : P1) : e a 0 = 1 := by
+theorem IsPairing.zero_right (h : IsPairing o V1 V2 VT ι1 ι2 e fe) (a : A1) : e a 0 = 1 := by
   have := h.add_right a 0 0
   rw [add_zero] at this
   exact (mul_eq_left.mp this.symm)
 
-theorem IsPairing.neg_left (h : IsPairing o e fe) (a : P1) (b : P2) : e (-a) b = (e a b)⁻¹ := by
+theorem IsPairing.neg_left (h : IsPairing o V1 V2 VT ι1 ι2 e fe) (a : A1) (b : A2) :
+    e (-a) b = (e a b)⁻¹ := by
   have := h.add_left a (-a) b
   rw [add_neg_cancel, h.zero_left] at this
   exact (eq_inv_of_mul_eq_one_right this.symm)
 
-theorem IsPairing.nsmul_left (h : IsPairing o e fe) (n : Nat) (a : P1) (b : P2) :
+theorem IsPairing.nsmul_left (h : IsPairing o V1 V2 VT ι1 ι2 e fe) (n : Nat) (a : A1) (b : A2) :
     e (n • a) b = e a b ^ n := by
   induction n with
   | zero => simp [h.zero_left]
   | succ n ih => rw [succ_nsmul, h.add_left, ih, pow_succ]
 
-theorem IsPairing.nsmul_right (h : IsPairing o e fe) (n : Nat) (a : P1) (b : P2) :
+theorem IsPairing.nsmul_right (h : IsPairing o V1 V2 VT ι1 ι2 e fe) (n : Nat) (a : A1) (b : A2) :
     e a (n • b) = e a b ^ n := by
   induction n with
   | zero => simp [h.zero_right]
   | succ n ih => rw [succ_nsmul, h.add_right, ih, pow_succ]
 
 /-- the product ∏ e(aᵢ, bᵢ) over the pairs `PairingCheck` is given -/
-def pairProd (e : P1 → P2 → T) : List P1 → List P2 → T
-  | a :: as, b :: bs => e a b * pairProd e as bs
+def pairProd (e : A1 → A2 → T) (ι1 : P1 → A1) (ι2 : P2 → A2) : List P1 → List P2 → T
+  | a :: as, b :: bs => e (ι1 a) (ι2 b) * pairProd e ι1 ι2 as bs
   | _, _ => 1
 
-theorem pairingAcc_spec (h : IsPairing o e fe) :
+theorem pairingAcc_spec (h : IsPairing o V1 V2 VT ι1 ι2 e fe) :
     ∀ (as : List P1) (bs : List P2) (acc : PT), as.length ≤ bs.length →
-      ∃ acc', pairingAcc o as bs acc = some acc' ∧ fe acc' = fe acc * pairProd e as bs := by
+      (∀ a ∈ as, V1 a) → (∀ b ∈ bs, V2 b) → VT acc →
+      ∃ acc', pairingAcc o as bs acc = some acc' ∧ VT acc' ∧
+        fe acc' = fe acc * pairProd e ι1 ι2 as bs := by
   intro as
   induction as with
-  | nil => intro bs acc _; exact ⟨acc, rfl, by simp [pairProd]⟩
+  | nil => intro bs acc _ _ _ hacc; exact ⟨acc, rfl, hacc, by simp [pairProd]⟩
   | cons a as ih =>
-    intro bs acc hl
+    intro bs acc hl hA hB hacc
     cases bs with
     | nil => simp at hl
     | cons b bs =>
       have hl' : as.length ≤ bs.length := by simpa using hl
+      have ha : V1 a := hA a (by simp)
+      have hb : V2 b := hB b (by simp)
+      have hA' : ∀ x ∈ as, V1 x := fun x hx => hA x (by simp [hx])
+      have hB' : ∀ x ∈ bs, V2 x := fun x hx => hB x (by simp [hx])
       by_cases hi : (o.isInf1 a || o.isInf2 b) = true
-      · obtain ⟨acc', h1, h2⟩ := ih bs acc hl'
-        refine ⟨acc', by simp only [pairingAcc, hi, if_true]; exact h1, ?_⟩
-        have he : e a b = 1 := by
+      · obtain ⟨acc', h1, hv, h2⟩ := ih bs acc hl' hA' hB' hacc
+        refine ⟨acc', by simp only [pairingAcc, hi, if_true]; exact h1, hv, ?_⟩
+        have he : e (ι1 a) (ι2 b) = 1 := by
           rcases Bool.or_eq_true _ _ |>.mp hi with h1 | h1
-          · rw [(h.inf1 a).mp h1]; exact h.zero_left b
-          · rw [(h.inf2 b).mp h1]; exact h.zero_right a
+          · rw [(h.inf1 a ha).mp h1]; exact h.zero_left _
+          · rw [(h.inf2 b hb).mp h1]; exact h.zero_right _
         rw [h2, pairProd, he, one_mul]
-      · obtain ⟨acc', h1, h2⟩ := ih bs (o.mul acc (o.miller b a)) hl'
-        refine ⟨acc', by simp only [pairingAcc, hi]; exact h1, ?_⟩
+      · have hmv : VT (o.mul acc (o.miller b a)) := h.mul_valid _ _ hacc (h.miller_valid a b ha hb)
+        obtain ⟨acc', h1, hv, h2⟩ := ih bs (o.mul acc (o.miller b a)) hl' hA' hB' hmv
+        refine ⟨acc', by simp only [pairingAcc, hi]; exact h1, hv, ?_⟩
         have hi' : o.isInf1 a = false ∧ o.isInf2 b = false := by
           simpa [Bool.or_eq_false_iff] using hi
-        have ha : a ≠ 0 := fun h0 => by
-          have := (h.inf1 a).mpr h0; rw [hi'.1] at this; cases this
-        have hb : b ≠ 0 := fun h0 => by
-          have := (h.inf2 b).mpr h0; rw [hi'.2] at this; cases this
-        rw [h2, h.fe_mul, h.fe_miller a b ha hb, pairProd, mul_assoc]
+        have ha0 : ι1 a ≠ 0 := fun h0 => by
+          have := (h.inf1 a ha).mpr h0; rw [hi'.1] at this; cases this
+        have hb0 : ι2 b ≠ 0 := fun h0 => by
+          have := (h.inf2 b hb).mpr h0; rw [hi'.2] at this; cases this
+        rw [h2, h.fe_mul _ _ hacc (h.miller_valid a b ha hb), h.fe_miller a b ha hb ha0 hb0, pairProd,
+          mul_assoc]
 
-omit [AddCommGroup P1] [AddCommGroup P2] in
+omit [AddCommGroup A1] [AddCommGroup A2] [CommGroup T] in
 theorem pairingAcc_short (o : PairingOps P1 P2 PT) :
     ∀ (as : List P1) (bs : List P2) (acc : PT), bs.length < as.length → pairingAcc o as bs acc = none := by
   intro as
@@ -107,16 +128,17 @@ theorem pairingAcc_short (o : PairingOps P1 P2 PT) :
       simp only [pairingAcc]
       split <;> exact ih _ _ hl'
 
-theorem pairingCheck_spec (h : IsPairing o e fe) (as : List P1) (bs : List P2)
-    (hl : as.length ≤ bs.length) :
-    ∃ b, pairingCheck o as bs = .ok b ∧ (b = true ↔ pairProd e as bs = 1) := by
-  obtain ⟨acc', h1, h2⟩ := pairingAcc_spec h as bs o.one hl
+theorem pairingCheck_spec (h : IsPairing o V1 V2 VT ι1 ι2 e fe) (as : List P1) (bs : List P2)
+    (hl : as.length ≤ bs.length) (hA : ∀ a ∈ as, V1 a) (hB : ∀ b ∈ bs, V2 b) :
+    ∃ b, pairingCheck o as bs = .ok b ∧ (b = true ↔ pairProd e ι1 ι2 as bs = 1) := by
+  obtain ⟨acc', h1, hv, h2⟩ := pairingAcc_spec h as bs o.one hl hA hB h.one_valid
   refine ⟨o.finalIsOne acc', by simp [pairingCheck, h1], ?_⟩
-  rw [h.final, h2, h.fe_one, one_mul]
+  rw [h.final _ hv, h2, h.fe_one, one_mul]
 
 end
 
-/-! ### a concrete instance of `IsPairing` (non-vacuity): P1 = P2 = ℤ, e(a,b) = a·b in (ℤ,+) -/
+/-! ### a small instance (P1 = P2 = ℤ, e(a,b) = a·b in (ℤ,+)) used for executable examples of
+`pairingCheck` / `verify`; its toy `marshal1`/`unmarshal1` round-trip only on 0..255 -/
 
 def intOps : BlsOps Int Int Int where
   isInf1 := fun a => a == 0
@@ -136,15 +158,18 @@ def intOps : BlsOps Int Int Int where
   marshal1 := fun a => [UInt8.ofNat a.toNat]
 
 theorem intOps_isPairing :
-    IsPairing (T := Multiplicative Int) intOps.toPairingOps
-      (fun a b => Multiplicative.ofAdd (a * b)) (fun x => Multiplicative.ofAdd x) where
-  inf1 := by intro a; simp [intOps]
-  inf2 := by intro b; simp [intOps]
+    IsPairing (T := Multiplicative Int) intOps.toPairingOps (fun _ => True) (fun _ => True) (fun _ => True)
+      id id (fun a b => Multiplicative.ofAdd (a * b)) (fun x => Multiplicative.ofAdd x) where
+  inf1 := by intro a _; simp [intOps]
+  inf2 := by intro b _; simp [intOps]
+  one_valid := trivial
   fe_one := rfl
-  fe_mul := by intro x y; rfl
-  fe_miller := by intro a b _ _; rfl
+  mul_valid := by intros; trivial
+  fe_mul := by intro x y _ _; rfl
+  miller_valid := by intros; trivial
+  fe_miller := by intro a b _ _ _ _; rfl
   final := by
-    intro x
+    intro x _
     simp only [intOps, beq_iff_eq]
     exact ⟨fun h => by rw [h]; rfl, fun h => by simpa using congrArg Multiplicative.toAdd h⟩
   add_left := by intro a a' b; show Multiplicative.ofAdd _ = Multiplicative.ofAdd (_ + _); rw [Int.add_mul]; rfl
